@@ -55,6 +55,9 @@ LEVEL = {
  "C10": ("model_checking", "exhaustive enumeration of build histories with a deterministic pool model (environment-deviation bounded) and stateless model checking of concurrent builds under a controlled scheduler, plus real-pool and race-detector passes",
          "every sequence of builds over an 8/10-item batch menu up to length 3/4 is run in one process with maximal builder reuse forced (and the pool's other legal answers explored as bounded deviations), and every pair/triple of concurrent builds is explored over all interleavings at pool operations; every build must equal the reference of its own batch",
          "sync.Pool replaced at build time by a deterministic model in the scheduler flavours; the real pool is exercised with the GC disabled", "4 C10"),
+ "C16": ("model_checking", "explicit-state breadth-first search over event histories of the real vector cache (states deduplicated by a canonical key read through verif hooks, successors by replay), plus stateless model checking of concurrent searchers under a controlled scheduler and a free-running race-detector pass",
+         "every history of open/search/filtered-search/close-handle/expiry-tick/segment-close events up to the depth bound is executed on the real cache; in every state each search must equal the reference for its own exclusion bitmap, every open handle's native index must be alive, and after segment close nothing may be alive; concurrent searchers with expiry ticks are explored preemption-bounded",
+         "trusted base: fakefaiss stand-in (DESIGN 3.4); expiry pass driven through the verif hook instead of the 1 s timer", "4 C16"),
  "C01": ("exploration", "bounded-exhaustive input enumeration on the implementation vs. reference model",
          "every batch of a stated finite alphabet (cell menu per document x field, N<=3; column and chunk-boundary families) x chunk modes x both build tags is built by the real code and its complete term/postings content compared with an independent reference model; exhaustive within the bounds, no sampling",
          "reference model in harness/ref; inputs only inside the alphabet; Go map order not enumerable (semantic oracle)", "4 C01"),
